@@ -297,13 +297,14 @@ def call(I, name, args, e):
         return UNIT
     if n.endswith('as core::iter::Iterator>::fold') or n == 'core::iter::Iterator::fold':
         init, cl = args[1], args[2]
-        acc = Cell(init)
-        I.frame().vars['$fold%d' % id(acc)] = acc
+        acc = Cell(init); key_ = '$fold%d' % id(acc)
+        I.frame().vars[key_] = acc
         def step(el):
-            acc.v = I.call_closure(cl, [acc.v, el], e)
+            c_ = I.frame().vars[key_]          # (the cell of the state this iteration runs in: branches work on copies)
+            c_.v = I.call_closure(cl, [c_.v, el], e)
         I.iterate(a0, step, e)
-        del I.frame().vars['$fold%d' % id(acc)]
-        return acc.v
+        r_ = I.frame().vars.pop(key_)
+        return r_.v
     if n == 'core::str::<impl str>::chars':
         return IterV(a0, False, kind='chars')
     if n == 'core::iter::Iterator::collect':
@@ -467,14 +468,14 @@ def call(I, name, args, e):
     if n.endswith('as core::iter::Iterator>::copied') or n.endswith('as core::iter::Iterator>::cloned') or n in ('core::iter::Iterator::copied', 'core::iter::Iterator::cloned'):
         if isinstance(a0, IterV): return IterV(a0.seq, False, a0.kind, a0.maps, a0.enum)
     if n.endswith('as core::iter::Iterator>::sum') or n == 'core::iter::Iterator::sum':
-        acc = Cell(ZERO)
-        I.frame().vars['$sum%d' % id(acc)] = acc
+        acc = Cell(ZERO); key_ = '$sum%d' % id(acc)
+        I.frame().vars[key_] = acc
         def step(el):
-            v = deref(el)
-            acc.v = add(acc.v, v) if is_term(v) and is_term(acc.v) else I.top('sum of non-scalars', e)
+            v = deref(el); c_ = I.frame().vars[key_]
+            c_.v = add(c_.v, v) if is_term(v) and is_term(c_.v) else I.top('sum of non-scalars', e)
         I.iterate(args[0], step, e)
-        del I.frame().vars['$sum%d' % id(acc)]
-        return acc.v
+        r_ = I.frame().vars.pop(key_)
+        return r_.v
     if (n.endswith('>::extend') and 'core::iter::Extend' in n) or n == 'core::iter::Extend::extend':
         # vec.extend(iterator): one push per element, in order
         out = a0
@@ -578,12 +579,12 @@ def call(I, name, args, e):
             return I.top('any/all over a sequence of unknown length', e)
         I.frame().vars[key_] = acc
         def step(el):
-            r_ = I.call_closure(args[1], [el], e)
-            if not is_term(r_) or not is_term(acc.v): acc.v = I.top('any/all with a non-boolean predicate', e); return
-            acc.v = b_or(acc.v, sym.as_cond(r_)) if is_any else b_and(acc.v, sym.as_cond(r_))
+            r_ = I.call_closure(args[1], [el], e); c_ = I.frame().vars[key_]
+            if not is_term(r_) or not is_term(c_.v): c_.v = I.top('any/all with a non-boolean predicate', e); return
+            c_.v = b_or(c_.v, sym.as_cond(r_)) if is_any else b_and(c_.v, sym.as_cond(r_))
         I.iterate(args[0], step, e)
-        del I.frame().vars[key_]
-        return acc.v
+        r2_ = I.frame().vars.pop(key_)
+        return r2_.v
     if n in ('core::slice::<impl [T]>::chunks_exact', 'core::slice::<impl [T]>::chunks', 'core::slice::<impl [T]>::chunks_exact_mut', 'core::slice::<impl [T]>::chunks_mut') and is_term(args[1]) and args[1][0] == 'c' and args[1][1] > 0:
         sq_ = a0; k_ = args[1][1]
         base_sq = sq_.seq if isinstance(sq_, SliceV) else sq_
@@ -666,16 +667,16 @@ def call(I, name, args, e):
             cell = Cell(out); key_ = '$collect%d' % id(cell)
             I.frame().vars[key_] = cell
             def step(el):
-                v = el
-                if out.is_bytes() or int_bits(out.elem):
+                v = el; out_ = I.frame().vars[key_].v
+                if out_.is_bytes() or int_bits(out_.elem):
                     v = deref(el)
                     if not is_term(v):
-                        I.top('collect of non-scalar into Vec<%s>' % out.elem, e); return
-                out.segs.append(('int', v, 1) if out.is_bytes() else ('elem', v))
+                        I.top('collect of non-scalar into Vec<%s>' % out_.elem, e); return
+                out_.segs.append(('int', v, 1) if out_.is_bytes() else ('elem', v))
             I.iterate(args[0], step, e)
-            del I.frame().vars[key_]
+            r_ = I.frame().vars.pop(key_)
             I.log.append(('mutate', n, e.get('sp'), _tgt(a0)))
-            return cell.v
+            return r_.v
         return I.top('collect into %s' % ty, e)
     if n in ('core::slice::<impl [T]>::to_vec', 'alloc::slice::<impl [T]>::to_vec', 'alloc::slice::<impl [T]>::to_vec_in'):
         if isinstance(a0, SeqV) and not a0.stores: return fcopy(a0)
